@@ -387,17 +387,18 @@ def model(fields, opts, items):
         if not f.deps:
             continue
         acc = accepted.get(f.name)
-        if acc is False:
-            continue
-        lacking = [d for d in f.deps if not provided.get(d) or accepted.get(d) is not True]
-        surely = [d for d in f.deps if not provided.get(d)]
+        raw_given = bool(fed[f.name])
+        if acc is False and not raw_given:
+            continue                      # the field is not provided: nothing is required
+        surely = [d for d in f.deps if not fed.get(d)]                      # no input at all for the dependency
+        maybe = [d for d in f.deps if fed.get(d) and (not provided.get(d) or accepted.get(d) is not True)]
         if acc is True and surely:
             e.must.add(("DependenciesAbsenceError", None))
-        elif lacking:
+        elif surely or maybe:
+            # undocumented: the field was given but excluded / ignored, or its dependency was given but
+            # ignored (no_input, other mode) or invalid
             e.may.add(("DependenciesAbsenceError", None))
-            if acc is True and any(accepted.get(d) is False and provided.get(d) for d in f.deps):
-                # dependency given but invalid / excluded: not decided by the documentation
-                e.unsure = True
+            e.unsure = True
     # ---- unknown keys
     addition = opts.get("addition")
     for k, v in unknown:
